@@ -388,12 +388,18 @@ Definition tag_guard (e : env) (fuel : nat) (jb : job) : bool :=
                                  || same_name (j_ic jb) (to_pascal_case (sf_tag f)) (l_name d)) ds)) fs
   end.
 
-Definition job_guard (e : env) (fuel : nat) (jobs : list job) (jb : job) : bool :=
+(* the guard knows which directions are generated (-way): a strategy that only the
+   missing direction would need does not exclude the pair *)
+Definition job_guard_w (w : way) (e : env) (fuel : nat) (jobs : list job) (jb : job) : bool :=
   plain_job jb && tag_guard e fuel jb
   && side_guard e fuel PSrc (j_src jb) && side_guard e fuel PDst (j_dst jb)
   && no_fanout e fuel jb
-  && strategies_ok e jobs (j_mapper_hop jb) true (pairs_to e fuel jb)
-  && strategies_ok e jobs (j_mapper_hop jb) false (pairs_from e fuel jb).
+  && (negb (has_to w) || strategies_ok e jobs (j_mapper_hop jb) true (pairs_to e fuel jb))
+  && (negb (has_from w) || strategies_ok e jobs (j_mapper_hop jb) false (pairs_from e fuel jb)).
 
-Definition pair_guard (e : env) (fuel : nat) (jobs : list job) : bool :=
-  forallb (job_guard e fuel jobs) jobs.
+Definition job_guard := job_guard_w WBoth.
+
+Definition pair_guard_w (w : way) (e : env) (fuel : nat) (jobs : list job) : bool :=
+  forallb (job_guard_w w e fuel jobs) jobs.
+
+Definition pair_guard (e : env) (fuel : nat) (jobs : list job) : bool := pair_guard_w WBoth e fuel jobs.
